@@ -394,6 +394,53 @@ def _latches(ctx):
                       "fit (or the fit of a clone of a fitted estimator) fails"),
                    construct=f"{recv.args[1]}.{mname}() from fit")
     ctx.floor("R19.5", "method calls on constructor-parameter objects from fit", n_calls, 2)
+    # fit must not branch on state that an earlier fit left in the caller's moment objects: a loaded-state attribute of an
+    # object held in a constructor parameter may be tested only after this fit has (re)loaded that object
+    base = M_MOMENT + ":Moment"
+    state = {"data_loaded"}
+    for c in prog.subclasses(base) + [base]:
+        ld = prog.lookup_method(c, "load_data")
+        if ld is None:
+            continue
+        try:
+            rl = A.run(ld.fq, cls_ctx=c)
+        except Exception:
+            continue
+        state |= {a for _, a, _ in self_stores(rl)}
+    n_br = 0
+    for cls in SUBJECTS:
+        fi = prog.lookup_method(cls, "fit")
+        if fi is None:
+            continue
+        params = set(prog.ctor_params(cls))
+        r = A.run(fi.fq, cls_ctx=cls)
+
+        def holder(o):
+            return [x.args[1] for x in subterms(o) if x.op == "attr" and x.args[0] is r.self_term and x.args[1] in params]
+        loads = [(e.data["fterm"].args[0], e.seq) for e in r.events if e.kind == "call" and e.data["fterm"].op in ("attr", "boundmethod")
+                 and str(e.data["fterm"].args[1]).endswith("load_data")]
+        seen_b = set()
+        for b in r.events:
+            if b.kind != "branch" or b.data.get("folded") is not None:
+                continue
+            for x in subterms(b.data["cond"]):
+                if not (x.op == "attr" and x.args[1] in state and isinstance(x.args[0], T)):
+                    continue
+                hs = holder(x.args[0])
+                if not hs:
+                    continue
+                n_br += 1
+                loaded = any(seq < b.seq and (rv is x.args[0] or A.eq(rv, x.args[0])) for rv, seq in loads)
+                key = (b.func, x.args[1])
+                if key in seen_b:
+                    continue
+                seen_b.add(key)
+                ctx.ob("R19.5", b.func, b.node, loaded,
+                       f"{cls.split(':')[1]}.fit tests .{x.args[1]} of its constructor parameter '{hs[0]}' only after loading it in this fit"
+                       if loaded else f"{cls.split(':')[1]}.fit branches on .{x.args[1]} of the object in its constructor parameter "
+                       f"'{hs[0]}' before (re)loading it: the state an earlier fit left there decides what this fit does",
+                       construct=f"{hs[0]}.{x.args[1]} tested in fit")
+    ctx.note(f"R19.5: {n_br} reads of moment state in branch conditions of fit inspected")
 
 
 def _event_terms(e):
